@@ -33,15 +33,17 @@ ASSUMPTIONS = [
     "where a report sits in the task tree is C02's business and not asserted here",
 ]
 
-DEST_EXC = [ValueError, RuntimeError, OSError, KeyError, P.BadStrError, P.AppError, ValueError]
+DEST_EXC = [ValueError, RuntimeError, OSError, KeyError, P.BadStrError, P.AppError, ValueError, P.NoModuleError]
 REPORT = "eliot:destination_failure"
 
 
 class RecordingDest(object):
-    def __init__(self, index, mask, exc_index, every):
+    def __init__(self, index, mask, exc_index, every, oneshot=None):
         self.index = index
-        self.mask = set(mask)
-        self.every = every
+        self.mask = set(mask) if oneshot is None else set()
+        self.every = every if oneshot is None else None
+        # a destination that unregisters itself while it is being called (after `oneshot` further messages)
+        self.oneshot = oneshot
         self.exc_cls = DEST_EXC[exc_index % len(DEST_EXC)]
         self.offered = []
         self.raised = []  # exception object or None per call
@@ -50,6 +52,10 @@ class RecordingDest(object):
     def __call__(self, message):
         k = len(self.offered)
         self.offered.append(dict(message))
+        if self.oneshot is not None and k == self.oneshot:
+            self.raised.append(None)
+            Logger._destinations.remove(self)
+            return
         if message.get("message_type") == REPORT and REPORT in str(message.get("message")):
             # a report about a failed report: the recursion the property rules
             # out.  Stop failing so that the run ends, and flag it.
@@ -65,7 +71,7 @@ class RecordingDest(object):
 
 def check(case):
     specs = case["dests"]
-    dests = [RecordingDest(i, d["mask"], d["exc"], d.get("every")) for i, d in enumerate(specs)]
+    dests = [RecordingDest(i, d["mask"], d["exc"], d.get("every"), d.get("oneshot")) for i, d in enumerate(specs)]
     late = case.get("late")  # index of a destination registered mid-run, or None
     if late is not None:
         late = late % len(dests)
@@ -134,6 +140,9 @@ def check(case):
                 continue
             start = reg_at[late]
         want = S[start:]
+        if d.oneshot is not None:
+            # it removed itself during its call number `oneshot`: offered that message, nothing afterwards
+            want = want[: d.oneshot + 1]
         require(
             len(d.offered) == len(want),
             "offered-count",
@@ -229,6 +238,8 @@ def classify(case, info):
     same = len(set(d["exc"] % len(DEST_EXC) for d in case["dests"])) < len(case["dests"])
     if same:
         labels.append("same-exception-class-twice")
+    if any(d.get("oneshot") is not None for d in case["dests"]):
+        labels.append("a-destination-unregisters-itself-while-called")
     if case.get("extractors") and info["reports"]:
         labels.append("extractor-registered-for-a-destination's-exception")
     nontrivial = info["dests"] >= 2 and info["partial"] >= 1 and info["fail_on_report"] >= 1
@@ -237,10 +248,11 @@ def classify(case, info):
 
 def strategy():
     dest = st.builds(
-        lambda mask, exc, every: {"mask": sorted(set(mask)), "exc": exc, "every": every},
+        lambda mask, exc, every, oneshot: {"mask": sorted(set(mask)), "exc": exc, "every": every, "oneshot": oneshot},
         st.lists(st.integers(0, 40), max_size=10),
         st.integers(0, len(DEST_EXC) - 1),
         st.sampled_from([None, None, None, None, 1, 2, 3]),
+        st.sampled_from([None, None, None, None, None, 0, 1, 3]),
     )
     return st.builds(
         lambda ex, dests, late, bf, late_at, pos, p: {"program": p, "extractors": ex, "dests": dests, "late": late, "buffer_first": bf, "late_at": late_at, "observer_pos": pos},
